@@ -6,6 +6,7 @@ import types
 from harness.core import hx, unhx, parse_sx, sx, BrokenCheck
 
 REAL_TRIM = 20_000_000
+TRIM_STATE = {"substituted": True}
 
 
 class ScriptedFile(io.BufferedIOBase):
@@ -66,7 +67,11 @@ def generator_with_trim(trim):
         return f
     code = f.__code__
     if REAL_TRIM not in code.co_consts:
-        raise BrokenCheck("trim constant 20_000_000 not found in ccsds_generator.__code__.co_consts")
+        # the threshold is no longer a literal of this function (moved, renamed, another value): it cannot be lowered from
+        # outside. Framing must not depend on it anyway, so the function is run as it is; trimming itself is then reached
+        # only by the genuine > 20 MB streams of the thorough tier. Reported in the evidence.
+        TRIM_STATE["substituted"] = False
+        return f
     consts = tuple(trim if (c == REAL_TRIM and type(c) is int) else c for c in code.co_consts)
     return types.FunctionType(code.replace(co_consts=consts), f.__globals__, f.__name__, f.__defaults__, f.__closure__) \
         if f.__kwdefaults__ is None else _with_kw(code.replace(co_consts=consts), f)
